@@ -276,28 +276,32 @@ func compareNative(p *PathResult, no *nativeOut, twin bool) string {
 // violationReproduced checks that the native run fails the same assertion (or panics
 // for a panic path).
 func violationReproduced(p *PathResult, no *nativeOut) (bool, string) {
-	if p.Outcome == outcomePanic {
-		if no.Panic != "" {
-			return true, "native panic: " + firstLines(no.Panic, 3)
-		}
-		return false, "engine predicted a panic, native run did not panic"
-	}
 	if len(no.Missing) > 0 {
 		return false, "native run asked for unknown variables " + strings.Join(no.Missing, ",")
 	}
+	if p.Outcome == outcomePanic && no.Panic != "" {
+		return true, "native panic: " + firstLines(no.Panic, 3)
+	}
+	// The native run of the real code on the solver's inputs is the ground truth: a
+	// failed property assertion or a panic there is a violation even when the engine
+	// predicted a different one (the two diverged after the point where the real code
+	// already misbehaves, e.g. slicing into spare capacity instead of panicking).
 	for _, a := range no.Asserts {
 		if !a.OK {
 			if a.Name == p.Violated {
 				return true, "native run fails assertion " + a.Name
 			}
-			return false, "native run fails a different assertion: " + a.Name
+			return true, "native run fails assertion " + a.Name + " (engine predicted " + p.Violated + "/" + p.Outcome.String() + ")"
 		}
 	}
 	if no.Panic != "" {
-		return false, "native run panicked instead: " + firstLines(no.Panic, 4)
+		return true, "native run panicked (engine predicted " + p.Violated + "): " + firstLines(no.Panic, 4)
 	}
 	if no.AssumeFail != "" {
 		return false, "native run rejected an assumption"
+	}
+	if p.Outcome == outcomePanic {
+		return false, "engine predicted a panic, native run did not panic"
 	}
 	return false, "native run passed every assertion"
 }
